@@ -605,6 +605,13 @@ class Body:
             l = src["l"]
         return l
 
+    def reads(self, op, l):
+        """the operand reads local l, directly or through plain copies / moves (`let x = call(); if x`)"""
+        if op_local(op) == l:
+            return True
+        a, b = self.alias_root(op) if op_place(op) else None, self.alias_root(l)
+        return a is not None and a == b
+
     def uses(self):
         """local -> list of (bb, where) for every read/borrow/move of the local (any projection)"""
         if self._uses is None:
